@@ -151,7 +151,7 @@ func (p *pipe) close() *fail {
 // C06 — exactly one tagged reply per request; requests served concurrently
 
 type batchReq struct {
-	Kind string `json:"kind"` // gated | free | statfs | badfid | flush-own | flush-idle | flush-of | mkdir | walk
+	Kind string `json:"kind"` // gated | free | statfs | badfid | flush-own | flush-idle | flush-of | mkdir | walk | unknown-type
 	Tag  uint16 `json:"tag"`
 	Of   int    `json:"of,omitempty"` // flush-of: index of the target request
 	// Held (gated only): which backend call the request is held in: "" GetAttr of
@@ -233,6 +233,14 @@ func runBatchCase(c batchCase, st *batchStats) *fail {
 		sts[i] = s
 		m := build(i, r)
 		s.rtype = m.Type + 1
+		if r.Kind == "unknown-type" && !heldTags[r.Tag] && tagReqs[r.Tag] == 0 {
+			// a frame the server rejects when it receives it (answered with Rlerror
+			// and the same tag by the receiving goroutine itself)
+			s.rtype, s.certain, s.sent = refcodec.Rlerror, true, true
+			p.s.Send(refcodec.Frame(99, r.Tag, []byte{9, 8, 7, 6, 5, 4, 3}))
+			tagReqs[r.Tag]++
+			continue
+		}
 		// is this tag in flight for certain (an earlier request with it is held)?
 		if heldTags[r.Tag] {
 			// duplicate of an in-flight tag: the server may drop it; not gated
@@ -587,7 +595,7 @@ func genBatchCase(rt *rapid.T, maxN int) batchCase {
 			r.Kind = "flush-of"
 			r.Of = rapid.IntRange(0, i-1).Draw(rt, "of")
 		default:
-			r.Kind = rapid.SampledFrom([]string{"mkdir", "walk"}).Draw(rt, "k2")
+			r.Kind = rapid.SampledFrom([]string{"mkdir", "walk", "unknown-type", "unknown-type"}).Draw(rt, "k2")
 		}
 		c.Reqs = append(c.Reqs, r)
 	}
